@@ -30,6 +30,7 @@ Ok(r) ==
                            /\ r.word \in {Stored(r.unit, r.num, r.den) - 1, Stored(r.unit, r.num, r.den),
                                           Stored(r.unit, r.num, r.den) + 1}
     [] r.kind = "order" -> r.w1 <= r.w2
+    [] r.kind = "rowrite" -> r.outcome = "refused"           \* an item without write permission refuses, on both paths
     [] r.kind = "unit"  -> IF r.label = "C" THEN r.symbol = "degC" /\ r.min = 15 /\ r.max = 40
                            ELSE r.symbol = "degF" /\ r.min = 59 /\ r.max = 104
     [] r.kind = "op"    -> r.got = Operation(r.heat, r.cool, r.cmp)
